@@ -420,11 +420,14 @@ func (p *c08) Exec(env *Env, plan any) {
 					m := muts[(in.Mutate-1)%len(muts)]
 					body = m.ApplyAny()
 					desc += "+" + m.String()
-					// an alteration confined to the protected header of the COSE wrapper
-					// of a tunnel message leaves key, IV and ciphertext as they were: if
-					// the receiver accepts it at all, it obtains the same plaintext
-					// (whether it should accept it is C05's question, not C08's)
-					if m.Semantic && !(src.MsgType >= 66 && src.MsgType <= 70 && strings.HasPrefix(m.Path, "/0/0")) {
+					// an alteration of the COSE wrapper of a tunnel message (protected or
+					// unprotected header, e.g. a duplicated IV entry, or the ciphertext)
+					// either makes the receiver reject it or, the ciphertext being
+					// authenticated under the session keys, yields the plaintext of the
+					// authentic message: if it is accepted at all it is a re-encoding of
+					// that message (whether it should be accepted is C05's question, which
+					// also checks that the plaintext is identical)
+					if m.Semantic && !(src.MsgType >= 66 && src.MsgType <= 70) {
 						sameContent = ""
 					}
 				}
